@@ -172,6 +172,12 @@ class Vector():
 		self._display_as_row = as_row
 		self._wild = True
 
+		# Re-initialisation (Vector.__new__ handed back an already initialised
+		# Table and Python runs __init__ on it again): drop the registration of
+		# the storage that is about to be replaced, or it goes stale.
+		if self.__dict__.get('_underlying') is not None:
+			_ALIAS_TRACKER.unregister(self, id(self.__dict__['_underlying']))
+
 		# We check self.__dict__ directly to avoid triggering Table.__getattr__
 		# which would crash because the table isn't initialized yet.
 		if '_precomputed_data' in self.__dict__:
